@@ -38,7 +38,8 @@ Proof. exact writer_cancel_after_call. Qed.
 (* serving side: the task is registered synchronously before the next frame is read, so a cancellation finds it; and
    only that handler is cancelled (C09) *)
 Theorem C08_cancel_reaches_only_its_handler : forall sk ls st,
-    sk_notify_key_unique sk = true -> run (rstep sk) rinit ls = Some st -> c09_only_own (rtrace st) = true.
+    sk_notify_key_unique sk = true -> sk_cancel_negative_ignored sk = true ->
+    run (rstep sk) rinit ls = Some st -> c09_only_own (rtrace st) = true.
 Proof. exact recv_c09_only_own. Qed.
 
 Theorem C08_generated_ok : skeleton_now = expected_skeleton.
